@@ -124,6 +124,25 @@ class World:
         self.f2 = m.Symbol("f2", FunctionType(BVType(2), [BVType(2), BOOL]))
         self.fr = m.Symbol("fr", FunctionType(REAL, [REAL, INT]))
 
+    def sym(self, sort, j):
+        """the j-th symbol of a sort (created on demand: the large-arity forms need hundreds)"""
+        m = self.mgr
+        if sort == "bool":
+            lst, mk = self.p, lambda k: m.Symbol("p%d" % k, BOOL)
+        elif sort == "int":
+            lst, mk = self.i, lambda k: m.Symbol("i%d" % k, INT)
+        elif sort == "real":
+            lst, mk = self.r, lambda k: m.Symbol("r%d" % k, REAL)
+        elif sort == "str":
+            lst, mk = self.s, lambda k: m.Symbol("s%d" % k, STRING)
+        else:
+            w = sort[1]
+            lst = self.bv.setdefault(w, [])
+            mk = lambda k: m.Symbol("v%d_%d" % (w, k), BVType(w))
+        while len(lst) <= j:
+            lst.append(mk(len(lst)))
+        return lst[j]
+
     def has_shortcut(self, name):
         f = getattr(shortcuts, name, None)
         return callable(f) and getattr(f, "__module__", None) == "pysmt.shortcuts" and hasattr(self.mgr, name)
@@ -284,8 +303,19 @@ def k_cases(W, rng, tier):
             mk("Pow", m.Int(b), m.Real(e))
     for v in (0, 5, -7, 10 ** 20 + 1, True, 1.0, None, Fraction(3)):
         mk("Int", v)
-    for v in (0, 5, -7, Fraction(1, 3), Fraction(-10, 4), 0.5, 2.0, True, None):
+    for v in (0, 5, -7, Fraction(1, 3), Fraction(-10, 4), 0.5, 2.0, True, None) + tuple(FLOATS) + tuple(BIG_INTS):
         mk("Real", v)
+    for n in BIG_INTS:
+        mk("Int", n)
+        mk("ToReal", m.Int(n))
+        mk("ToReal", m.Int(-n))
+        mk("Div", W.r[0], m.Real(Fraction(n, 3)))
+        mk("Div", m.Real(n), m.Real(n + 1))
+        mk("Plus", m.Int(n), W.i[0])
+        for w in (64, 128):
+            if n < (1 << w):
+                mk("BV", n, w)
+                mk("SBV", -n, w + 1)
     for v in ("", "ab", "a\"b"):
         mk("String", v)
     # bit-vector constants
@@ -417,7 +447,8 @@ def infix_cases(W, rng, tier, methods):
     m = W.mgr
     reps = 1 if tier == "quick" else 4
     cases = []
-    lits = [0, 1, 3, -1, 7, 16, True, False, Fraction(1, 2), Fraction(-3), 0.25, None, "#b01"]
+    lits = [0, 1, 3, -1, 7, 16, True, False, Fraction(1, 2), Fraction(-3), 0.25, None, "#b01", 0.1, 1e23, 2 ** 64 + 1,
+            Fraction(10 ** 30 + 7, 2 ** 64 + 1)]
     sorts = ["bool", "int", "real", ("bv", 1), ("bv", 2), ("bv", 4), "str"]
     two = {"Ite", "Store", "BVExtract"}
     unary = {"__neg__", "__invert__"}
@@ -923,6 +954,186 @@ def expr_forms(rng, tier):
     return out
 
 
+
+LARGE_ARITIES = [31, 32, 33, 34, 35, 63, 64, 65, 66, 67, 127, 128, 129, 130, 255, 256, 257, 258, 500, 501]
+
+
+def targeted(sort, n, identity_dups=False):
+    """position-sensitive assignments for an n-ary form: a base value everywhere and a special value
+    at the first / middle / last position (alone and in pairs), plus an 'identity' vector"""
+    if sort == "bool":
+        pairs = [(False, True), (True, False)]
+        ident = [bool(i % 2) for i in range(n)]
+    elif sort == "int":
+        pairs = [(0, 1), (1, 0), (5, -3), (5, 9), (1, 2)]
+        ident = list(range(n))
+    elif sort == "str":
+        pairs = [("", "a"), ("b", "a")]
+        ident = [("a", "b", "ab")[i % 3] for i in range(n)]
+    else:
+        w = sort[1]
+        top = (1 << w) - 1
+        pairs = [(("bv", w, 0), ("bv", w, 1)), (("bv", w, top), ("bv", w, 0)), (("bv", w, 1), ("bv", w, top)),
+                 (("bv", w, top), ("bv", w, 1 << (w - 1)))]
+        ident = [("bv", w, i & top) for i in range(n)]
+    mid = n // 2
+    pos = sorted({0, mid, n - 1})
+    two = [(0, mid), (mid, n - 1), (0, n - 1)]
+    out = [tuple(ident)]
+    for (b, sp) in pairs:
+        out.append(tuple([b] * n))
+        for p_ in pos:
+            v = [b] * n
+            v[p_] = sp
+            out.append(tuple(v))
+        for (p_, q_) in two:
+            if p_ != q_:
+                v = [b] * n
+                v[p_] = sp
+                v[q_] = sp
+                out.append(tuple(v))
+    if identity_dups:
+        for (p_, q_) in two:
+            if p_ != q_:
+                v = list(ident)
+                v[q_] = v[p_]
+                out.append(tuple(v))
+    seen, res = set(), []
+    for t in out:
+        if t not in seen:
+            seen.add(t)
+            res.append(t)
+    return res
+
+
+def large_forms(W, tier, rng):
+    """every n-ary / cardinality constructor at large arities (31-35, 63-67, 127-130, 255-258, 500, 501)
+    with position-sensitive assignments"""
+    m = W.mgr
+    quick = tier == "quick"
+
+    def bvfold(f, w):
+        return lambda v: bvv(w, fold(lambda x, y: f(x, y) & mask(w), [x[2] for x in v]))
+
+    def cc(v):
+        acc = 0
+        for x in v:
+            acc = (acc << x[1]) | x[2]
+        return ("bv", sum(x[1] for x in v), acc)
+    specs = [
+        ("And", "bool", lambda a: m.And(a), lambda v: all(v), 501, True),
+        ("Or", "bool", lambda a: m.Or(a), lambda v: any(v), 501, True),
+        ("AtMostOne", "bool", lambda a: m.AtMostOne(a), lambda v: sum(1 for x in v if x) <= 1, 501, True),
+        ("ExactlyOne", "bool", lambda a: m.ExactlyOne(*a), lambda v: sum(1 for x in v if x) == 1, 501, True),
+        ("AllDifferent", "int", lambda a: m.AllDifferent(a), lambda v: len(set(v)) == len(v), 130, False),
+        ("Plus", "int", lambda a: m.Plus(a), sum, 501, False),
+        ("Times", "int", lambda a: m.Times(a), lambda v: fold(lambda x, y: x * y, v), 501, False),
+        ("Min", "int", lambda a: m.Min(a), min, 501, False),
+        ("Max", "int", lambda a: m.Max(*a), max, 501, False),
+        ("BVAnd", ("bv", 3), lambda a: m.BVAnd(a), bvfold(lambda x, y: x & y, 3), 501, False),
+        ("BVOr", ("bv", 3), lambda a: m.BVOr(*a), bvfold(lambda x, y: x | y, 3), 501, False),
+        ("BVAdd", ("bv", 3), lambda a: m.BVAdd(a), bvfold(lambda x, y: x + y, 3), 501, False),
+        ("BVMul", ("bv", 3), lambda a: m.BVMul(a), bvfold(lambda x, y: x * y, 3), 501, False),
+        ("MinBV signed", ("bv", 2), lambda a: m.MinBV(True, a), lambda v: min(v, key=lambda x: sgn(2, x[2])), 501, False),
+        ("MaxBV unsigned", ("bv", 2), lambda a: m.MaxBV(False, a), lambda v: max(v, key=lambda x: x[2]), 501, False),
+        ("BVConcat", ("bv", 1), lambda a: m.BVConcat(a), cc, 501, False),
+        ("StrConcat", "str", lambda a: m.StrConcat(a), lambda v: "".join(v), 501, False),
+    ]
+    out = []
+    for (name, sort, build, oracle, cap, card) in specs:
+        ar = [n for n in LARGE_ARITIES if n <= cap]
+        if quick:
+            pick = {33, rng.choice([a_ for a_ in ar if a_ > 35])} | ({65, rng.choice([129, 257, 501])} if card else set())
+            if name == "AllDifferent":
+                pick = {33, rng.choice([34, 35, 63, 64, 65, 66, 67])}
+            ar = sorted(pick)
+        for n in ar:
+            # over symbols for the small ones; over constants beyond (the reference evaluator looks
+            # symbols up linearly: hundreds of symbols in a quadratic formula are too slow)
+            for const_args in ([False, True] if n <= 35 else [True]):
+                F = SForm("%s arity %d%s" % (name, n, " (constant arguments)" if const_args else ""), [sort] * n,
+                          lambda W_, a, build=build: build(a), oracle)
+                F.asg = targeted(sort, n, identity_dups=(name == "AllDifferent"))
+                F.const_args = const_args
+                if quick and not card and len(F.asg) > 12:
+                    F.asg = F.asg[:1] + rng.sample(F.asg[1:], 11)
+                out.append(F)
+    return out
+
+
+def extreme_forms(W, tier, rng):
+    """extreme but legal values: integer constants beyond 2**53 / 2**63 / 2**64 / 10**20 / 10**30, rationals
+    with huge numerators and denominators, wide bit-vector constants, Python floats whose shortest repr is
+    not their exact value -- in every constructor that folds or converts constants and as infix literals"""
+    m = W.mgr
+    out = []
+
+    def cf(name, build, expected):
+        F = SForm("const " + name, [], lambda W_, a: build(), lambda v: expected)
+        F.asg = [()]
+        out.append(F)
+    for n in BIG_INTS:
+        for sg in (1, -1):
+            k = sg * n
+            cf("ToReal(Int(%d))" % k, lambda k=k: m.ToReal(m.Int(k)), Fraction(k))
+            cf("shortcuts.ToReal(Int(%d))" % k, lambda k=k: shortcuts.ToReal(shortcuts.Int(k)), Fraction(k))
+            cf("ToReal(Int(%d)) < ToReal(Int(%d))" % (k, k + 1),
+               lambda k=k: m.LT(m.ToReal(m.Int(k)), m.ToReal(m.Int(k + 1))), True)
+            cf("Real(%d)" % k, lambda k=k: m.Real(k), Fraction(k))
+            cf("Real((%d, 3))" % k, lambda k=k: m.Real((k, 3)), Fraction(k, 3))
+            cf("Plus(Int(%d), Int(1))" % k, lambda k=k: m.Plus(m.Int(k), m.Int(1)), k + 1)
+            cf("Times(Int(%d), Int(%d))" % (k, k), lambda k=k: m.Times(m.Int(k), m.Int(k)), k * k)
+            cf("Div(Real(%d), Real(%d))" % (k, n + 1), lambda k=k, n=n: m.Div(m.Real(k), m.Real(n + 1)), Fraction(k, n + 1))
+            cf("Div(Real(1), Real(%d/%d))" % (k, n + 2),
+               lambda k=k, n=n: m.Div(m.Real(1), m.Real(Fraction(k, n + 2))), Fraction(n + 2, k))
+            cf("Min(Int(%d), Int(%d))" % (k, k + 1), lambda k=k: m.Min(m.Int(k), m.Int(k + 1)), k)
+            cf("Max(Real(%d), Real(%d + 1/2))" % (k, k),
+               lambda k=k: m.Max(m.Real(k), m.Real(Fraction(2 * k + 1, 2))), Fraction(2 * k + 1, 2))
+            cf("Abs(Int(%d))" % k, lambda k=k: shortcuts.Abs(m.Int(k)), abs(k))
+            cf("GT(Int(%d), Int(%d))" % (k + 1, k), lambda k=k: m.GT(m.Int(k + 1), m.Int(k)), True)
+            cf("Equals(ToReal(Int(%d)), Real(%d))" % (k, k), lambda k=k: m.Equals(m.ToReal(m.Int(k)), m.Real(k)), True)
+        for w in (64, 70, 128, 200):
+            if n + 1 >= (1 << w):
+                continue
+            cf("BVToNatural(BV(%d, %d))" % (n, w), lambda n=n, w=w: m.BVToNatural(m.BV(n, w)), n)
+            cf("BVToNatural(SBV(-%d, %d))" % (n, w + 1), lambda n=n, w=w: m.BVToNatural(m.SBV(-n, w + 1)), (1 << (w + 1)) - n)
+            cf("BVAdd(BV(%d, %d), BVOne)" % (n, w), lambda n=n, w=w: m.BVAdd(m.BV(n, w), m.BVOne(w)), ("bv", w, n + 1))
+            cf("BVULT(BV(%d, %d), +1)" % (n, w), lambda n=n, w=w: m.BVULT(m.BV(n, w), m.BV(n + 1, w)), True)
+            cf("BVZExt(BV(%d, %d), 3)" % (n, w), lambda n=n, w=w: m.BVZExt(m.BV(n, w), 3), ("bv", w + 3, n))
+            cf("BV(%d, %d) << 1" % (n, w), lambda n=n, w=w: m.BVLShl(m.BV(n, w), 1), ("bv", w, (2 * n) & mask(w)))
+    for f in FLOATS:
+        cf("Real(%r)" % f, lambda f=f: m.Real(f), Fraction(f))
+        cf("shortcuts.Real(%r)" % f, lambda f=f: shortcuts.Real(f), Fraction(f))
+        cf("Real(%r) vs decimal" % f, lambda f=f: m.Equals(m.Real(f), m.Real(Fraction(str(f)))), Fraction(f) == Fraction(str(f)))
+
+    def ex(text, base, values):
+        F = expr_form(text, base)
+        F.asg = [(v,) for v in values]
+        out.append(F)
+
+    def lit(x):
+        if isinstance(x, Fraction):
+            return "Fraction(%d, %d)" % (x.numerator, x.denominator)
+        r = repr(x)
+        return "(%s)" % r if r.startswith("-") else r
+    shapes = ["(n0 + %s)", "(%s + n0)", "(n0 - %s)", "(%s - n0)", "(n0 * %s)", "(%s * n0)", "(n0 < %s)", "(%s < n0)",
+              "(n0 >= %s)", "n0.Equals(%s)", "n0.NotEquals(%s)", "(-(n0 * %s))"]
+    for n in BIG_INTS + [-x for x in BIG_INTS[:2]]:
+        for sh in shapes:
+            ex(sh % lit(n), "int", [0, 1, -1, n, n - 1, n + 1, 2 ** 53, -n])
+            ex(sh % lit(n), "real", [Fraction(0), Fraction(n), Fraction(n) + Fraction(1, 2), Fraction(n - 1), Fraction(1, 3)])
+    big_q = [Fraction(10 ** 30 + 7, 2 ** 64 + 1), Fraction(-(2 ** 53 + 1), 10 ** 20 + 3), Fraction(1, 2 ** 70 + 1)]
+    for q in big_q:
+        for sh in shapes + ["(n0 / %s)"]:
+            ex(sh % lit(q), "real", [Fraction(0), q, q + 1, q * 2, Fraction(1, 3), -q])
+    for f in FLOATS:
+        exact, dec = Fraction(f), Fraction(str(f))
+        vals = [exact, dec, Fraction(0), Fraction(1), exact * 2, dec - exact, Fraction(1, 3)]
+        for sh in shapes + ["(n0 / %s)", "(n0 <= %s)", "(%s > n0)"]:
+            ex(sh % lit(f), "real", vals)
+    return out
+
+
 def variant_forms(forms, tier):
     """the same form on permuted argument lists (call history on one manager: these are built
     after the originals), on lists with repeated operands, and on lists in which the same
@@ -986,6 +1197,8 @@ class SForm:
         self.build = build          # (W, [symbols]) -> formula (real code)
         self.oracle = oracle        # ([python values]) -> python value, or raises Refused
         self.rewritten = rewritten
+        self.asg = None             # explicit list of assignments (targeted), instead of the domains
+        self.const_args = False     # build on constant arguments (one formula per assignment)
 
 
 class ShortcutsProxy(object):
@@ -1004,7 +1217,8 @@ def s_forms(W, tier, rng):
     maxw = 3 if tier == "quick" else 4
     base = base_forms(W, tier, rng, W.mgr, "", maxw)
     via_sc = base_forms(W, tier, rng, ShortcutsProxy(W.mgr), " [shortcuts]", 2 if tier == "quick" else 3)
-    return base + via_sc + variant_forms(base, tier) + expr_forms(rng, tier)
+    return (base + via_sc + variant_forms(base, tier) + expr_forms(rng, tier) + extreme_forms(W, tier, rng) +
+            large_forms(W, tier, rng))
 
 
 def base_forms(W, tier, rng, m, tag, maxw):
@@ -1369,9 +1583,12 @@ def s_pow(ctx, W):
                                      {"form": "Pow", "call": call, "args": [str(b), str(e)]})
 
 
-INT_VALUES = [0, 1, -1, 2, -2, 3, 5, -5, 7, 10, -10, 2 ** 31, -(2 ** 31), 10 ** 20 + 1]
+BIG_INTS = [2 ** 53 + 1, 2 ** 63, 2 ** 64 + 1, 10 ** 20 + 3, 10 ** 30 + 7]
+INT_VALUES = [0, 1, -1, 2, -2, 3, 5, -5, 7, 10, -10, 2 ** 31, -(2 ** 31), 10 ** 20 + 1, 2 ** 53 + 1, -(2 ** 64 + 1)]
 REAL_VALUES = [Fraction(0), Fraction(1), Fraction(-1), Fraction(1, 2), Fraction(-1, 2), Fraction(-7, 3), Fraction(5),
-               Fraction(3), Fraction(10 ** 20 + 1, 3), Fraction(2, 7)]
+               Fraction(3), Fraction(10 ** 20 + 1, 3), Fraction(2, 7), Fraction(2 ** 53 + 1),
+               Fraction(10 ** 30 + 7, 2 ** 64 + 1)]
+FLOATS = [0.1, 0.3, 3.14, 1e23, 1e-7, 5e-324, 2.0 ** -70, -0.1, 1e16 + 2.0]
 
 
 def domain(sort):
@@ -1381,6 +1598,8 @@ def domain(sort):
         return INT_VALUES
     if sort == "real":
         return REAL_VALUES
+    if sort == "str":
+        return ["", "a", "b", "ab"]
     w = sort[1]
     return [("bv", w, n) for n in range(1 << w)]
 
@@ -1421,19 +1640,40 @@ def sort_symbols(W, sorts):
     for s in sorts:
         j = cnt.get(s, 0)
         cnt[s] = j + 1
-        if s == "bool":
-            out.append(W.p[j])
-        elif s == "int":
-            out.append(W.i[j])
-        elif s == "real":
-            out.append(W.r[j])
-        else:
-            out.append(W.bv[s[1]][j])
+        out.append(W.sym(s, j))
     return out
 
 
 def sort_name(s):
     return s if isinstance(s, str) else "bv%d" % s[1]
+
+
+def sort_type(sort):
+    return {"bool": BOOL, "int": INT, "real": REAL, "str": STRING}.get(sort) or BVType(sort[1])
+
+
+def run_const_form(ctx, W, F, lines, meta):
+    """a form evaluated on constant arguments: one formula per assignment, empty interpretation"""
+    sig0 = {"oracle": "named-function", "form": re.sub(r"-?\d+", "k", F.name),
+            "sorts": ",".join(sorted({sort_name(s) for s in F.sorts})) or "-", "arity": str(len(F.sorts))}
+    ctx.count("s_forms")
+    tys = [sort_type(s) for s in F.sorts]
+    for vals in F.asg:
+        consts = [semantic.val_to_fnode(W.mgr, t, v) for t, v in zip(tys, vals)]
+        out = outcome(lambda: F.build(W, consts))
+        if out[0] != "ok":
+            ctx.case("%s refused" % F.name)
+            if out[0] == "err":
+                ctx.report_s(dict(sig0, kind="unexpected-error", error=out[1]),
+                             "%s raises %s on constant arguments" % (F.name, out[2]),
+                             {"form": F.name, "sorts": [sort_name(s) for s in F.sorts], "values": repr(vals)[:300]})
+            return
+        try:
+            expected = F.oracle(list(vals))
+        except Refused:
+            continue
+        lines.append("evalc N 0 0 0 %s" % out[1])
+        meta.append((F, vals, expected, out[2], sig0))
 
 
 def run_s(ctx, W):
@@ -1443,14 +1683,19 @@ def run_s(ctx, W):
     lines, meta = [], []
     exhaustive_forms = 0
     for F in forms:
+        if F.const_args:
+            run_const_form(ctx, W, F, lines, meta)
+            continue
         syms = sort_symbols(W, F.sorts)
         out = outcome(lambda: F.build(W, syms))
-        if getattr(F, "expr", False):
+        if F.asg is not None:
+            asg, exh = F.asg, False
+        elif getattr(F, "expr", False):
             quick = ctx.tier == "quick"
             asg, exh = assignments(ctx, F.sorts, 128 if quick else 4096,
                                    (16 if quick else 80) if not all(finite(x) for x in F.sorts) else (48 if quick else 512))
         elif " @" in F.name or "[shortcuts]" in F.name:
-            asg, exh = assignments(ctx, F.sorts, 512 if ctx.tier == "quick" else cap, 30 if ctx.tier == "quick" else 200)
+            asg, exh = assignments(ctx, F.sorts, 256 if ctx.tier == "quick" else cap, 20 if ctx.tier == "quick" else 200)
         else:
             asg, exh = assignments(ctx, F.sorts, cap, samples)
         sig0 = {"oracle": "named-function",
@@ -1528,10 +1773,10 @@ def run_s(ctx, W):
             same = (got == expected)
         if not same:
             ctx.report_s(dict(sig0, kind="wrong-value"),
-                         "%s%r: the built formula %s evaluates to %r, the named function gives %r" % (
-                             F.name, tuple(vals), semantic.readable(f, 160), got, expected),
-                         {"form": F.name, "sorts": [sort_name(s) for s in F.sorts], "values": repr(vals),
-                          "request": line, "lean": ans, "expected": repr(expected),
+                         "%s%s: the built formula %s evaluates to %r, the named function gives %r" % (
+                             F.name, "(" + repr(tuple(vals))[1:300], semantic.readable(f, 160), got, expected),
+                         {"form": F.name, "sorts": [sort_name(s) for s in F.sorts], "values": repr(vals)[:2000],
+                          "request": line[:20000], "lean": ans[:2000], "expected": repr(expected)[:2000],
                           "built": semantic.readable(f, 300)})
     if lines:
         ctx.sample({"S-request": lines[len(lines) // 2][:300], "answer": answers[len(lines) // 2]}, limit=7)
